@@ -323,6 +323,78 @@ func run(t *testing.T, c *vk.C, sc scen, rng *rand.Rand) map[string]int {
 		}
 		a.Close()
 
+		if sc.Proxied {
+			// the same, with history: the handshake starts while the torrent is not proxied (so its hash is on
+			// offer), stalls, the torrent is deleted and added again through a proxy, and then the handshake
+			// completes. The proxied torrent must not end up with an incoming peer.
+			g2 := &fixture.Geo{Name: "swap", PieceLen: 16 << 10, Length: 2*(16<<10) - 5, Seed: rng.Uint64()}
+			h2 := g2.InfoHash()
+			mk := func(px string) *swarm.Tor {
+				tx, err := tor.New(px, h2, "", g2.Info(), 0, nil, nil)
+				if err != nil {
+					panic(err)
+				}
+				if err := tx.MetadataComplete(); err != nil {
+					panic(err)
+				}
+				return sw.Adopt(tx, g2)
+			}
+			u := mk("")
+			sw.Cut()
+			a2, b2 := net.Pipe()
+			srvErr2 := make(chan error, 1)
+			go func() { srvErr2 <- tor.Server(gaddrConn{a2}, crypto.DefaultOptions(false, false)) }()
+			sw.Cut() // Server has taken its list of hashes and waits for the handshake
+			time.Sleep(time.Duration(1+rng.IntN(20)) * time.Second)
+			u.Kill()
+			sw.Cut()
+			pt := mk(proxy)
+			sw.Cut()
+			sw.Act("torrent %x deleted and added again through a proxy while an incoming handshake for it is pending", h2[:4])
+			go func() {
+				hs := append([]byte{19}, []byte("BitTorrent protocol")...)
+				hs = append(hs, 0, 0, 0, 0, 0, 0x10, 0, 5)
+				hs = append(hs, h2...)
+				hs = append(hs, []byte("-VF0003-incoming0001")...)
+				b2.SetDeadline(time.Now().Add(2 * time.Minute))
+				b2.Write(hs)
+				buf := make([]byte, 4096)
+				for {
+					if _, err := b2.Read(buf); err != nil {
+						break
+					}
+				}
+				b2.Close()
+			}()
+			sw.Cut()
+			var serr2 error
+			got2 := false
+			select {
+			case serr2 = <-srvErr2:
+				got2 = true
+			default:
+				time.Sleep(3 * time.Minute)
+				sw.Cut()
+				select {
+				case serr2 = <-srvErr2:
+					got2 = true
+				default:
+					c.Inconclusive("tor.Server did not return (swap)")
+				}
+			}
+			if got2 {
+				ps2, _ := pt.T.GetPeers()
+				if serr2 == nil || len(ps2) > 0 {
+					sw.Viol("C18", "incoming", "incoming-accepted-while-proxied after-swap", fmt.Sprintf("an incoming handshake that began before the torrent was re-added through a proxy was accepted: Server returned %v, %d peers attached to the proxied torrent", serr2, len(ps2)))
+				} else {
+					m.count("incoming_refused_proxied_after_swap")
+				}
+			}
+			a2.Close()
+			pt.Kill()
+			sw.Cut()
+		}
+
 		// configuration changes
 		wait := func(s int) {
 			if s > 0 {
